@@ -18,7 +18,7 @@ for d in sorted(glob.glob(os.path.join(V, "seeded", "*"))):
     rows.append(f"| {os.path.basename(d)} | {m.get('property')} | {cell(m.get('summary',''))} | {cell(m.get('needs',''))} | {', '.join(own) or '**no**'} | {', '.join(oth) or '-'} |")
 p = os.path.join(V, "DESIGN.md")
 s = open(p).read()
-s = re.sub(r"<!-- SEEDED-TABLE-BEGIN -->.*<!-- SEEDED-TABLE-END -->", "<!-- SEEDED-TABLE-BEGIN -->\n" + "\n".join(rows) + "\n<!-- SEEDED-TABLE-END -->", s, flags=re.S)
+s = re.sub(r"<!-- SEEDED-TABLE-BEGIN -->.*<!-- SEEDED-TABLE-END -->", lambda m_: "<!-- SEEDED-TABLE-BEGIN -->\n" + "\n".join(rows) + "\n<!-- SEEDED-TABLE-END -->", s, flags=re.S)
 kf = json.load(open(os.path.join(V, "known_findings.json")))["findings"]
 rr = ["| id | rules (instances on the current tree) | fixed defects | known findings |", "|---|---|---|---|"]
 for i in range(1, 20):
@@ -31,6 +31,6 @@ for i in range(1, 20):
     fixed = sorted({f["rule"] for f in kf if f["status"] == "fixed" and pid in f["properties"]})
     known = sorted({f["rule"] for f in kf if f["status"] == "known" and pid in f["properties"]})
     rr.append(f"| {pid} | {rules} | {', '.join(fixed) or '-'} | {', '.join(known) or '-'} |")
-s = re.sub(r"<!-- RULES-TABLE-BEGIN -->.*<!-- RULES-TABLE-END -->", "<!-- RULES-TABLE-BEGIN -->\n" + "\n".join(rr) + "\n<!-- RULES-TABLE-END -->", s, flags=re.S)
+s = re.sub(r"<!-- RULES-TABLE-BEGIN -->.*<!-- RULES-TABLE-END -->", lambda m_: "<!-- RULES-TABLE-BEGIN -->\n" + "\n".join(rr) + "\n<!-- RULES-TABLE-END -->", s, flags=re.S)
 open(p, "w").write(s)
 print(len(rows) - 2, "rows")
